@@ -51,7 +51,8 @@ def make(case):
     return t, M(OID, SID, D.tolist(), omd, smd, 'OTU table')
 
 
-KEYSETS = {'new': {'n': 'N'}, 'existing': {'k': 'K'}, 'both': {'n': 'N', 'k': 'K', 'tax': ['z']}}
+KEYSETS = {'new': {'n': 'N'}, 'existing': {'k': 'K'}, 'both': {'n': 'N', 'k': 'K', 'tax': ['z']},
+           'none-values': {'n': None, 'k': None}}
 
 
 def cases1(tier):
